@@ -1,6 +1,7 @@
 import H2V.Lemmas.ConnCtlPGraceful
 import H2V.Lemmas.ConnCtlPGoAwaySent
 import H2V.Lemmas.ConnCtlPHist
+import H2V.Lemmas.ConnCtlPGoAwayAll
 /-
   C15 — GOAWAY / shutdown: monotone last-stream-id, in-flight streams finish, the rest fail.
   Property theorems only (lemmas: `H2V/Lemmas/ConnCtlP*.lean`, notes: `H2V/Lemmas/ConnCtlPNOTES.md`).
@@ -224,8 +225,115 @@ theorem nothing_processed_after_go_away_now (fuel : Nat) (c : Conn) (h : Dead c)
 /-- `abrupt_shutdown(reason)` makes the connection halting -/
 example (c : Conn) (e : Reason) : Halting (c.goAwayFromUser e) := (inert_goAwayFromUser c e).2
 
+/-- **the GOAWAY invariant holds in every reachable state — so none of the GOAWAY `assert!`s can
+    fire.**  `Hist15 c0 evs c`: the connection got from `c0` to `c` by any interleaving of
+    `proto::Connection::poll` / `client::Connection::poll` (any waker, any fuel, any transport
+    state), `graceful_shutdown`, `abrupt_shutdown(reason)`, and calls that leave `goAway`,
+    `last_processed_id`, `max_stream_id` alone (`Keep15` — every handle call and transport event of
+    the driver, see `driver_calls_keep`).  Together with `go_away_call_sites` /
+    `go_away_now_monotone` (under the invariant the asserts hold at each call site) this is: the
+    `assert!`s of `GoAway::go_away` ("GOAWAY stream IDs shouldn't be higher") and of `Recv::go_away`
+    (`max_stream_id >= last_processed_id`) never fire. -/
+theorem goaway_invariant_in_every_reachable_state {c0 c : Conn} {evs : List Ev} (h : Hist15 c0 evs c)
+    (h0 : GoAwayInv c0) : GoAwayInv c :=
+  (hist15_final h h0).1
+
+/-- **the last-stream-ids of the GOAWAY frames an endpoint sends never increase** — over every
+    history: in the order handed to the codec the ids are sorted non-increasingly, each is at most
+    what was announced before the history started (if anything) and at least what is announced at
+    its end. -/
+theorem goaway_last_stream_ids_never_increase {c0 c : Conn} {evs : List Ev} (h : Hist15 c0 evs c)
+    (h0 : GoAwayInv c0) :
+    (sentG evs).Pairwise (fun a b => b.lastStreamId ≤ a.lastStreamId) ∧
+    (∀ f ∈ sentG evs, ∃ m', gaLast c = some m' ∧ m' ≤ f.lastStreamId) ∧
+    (∀ f ∈ sentG evs, ∀ m, gaLast c0 = some m → f.lastStreamId ≤ m) :=
+  ⟨(hist15_final h h0).2.sorted, (hist15_final h h0).2.lower, (hist15_final h h0).2.upper⟩
+
+/-- **no GOAWAY sent is below a stream the endpoint has processed**: every GOAWAY frame of the
+    history announces at least the `last_processed_id` of the state reached — the highest
+    peer-initiated stream `recv_headers` has counted (and `accepted_request_is_counted_partial`: a
+    request is counted before it is queued for the application). -/
+theorem goaways_cover_processed_streams {c0 c : Conn} {evs : List Ev} (h : Hist15 c0 evs c) (h0 : GoAwayInv c0) :
+    ∀ f ∈ sentG evs, c.streams.recv.lastProcessedId ≤ f.lastStreamId :=
+  hist15_covers_final h h0
+
+/-- non-vacuity, and graceful shutdown end to end on a concrete connection: the demo server (no
+    stream in flight) shuts down gracefully, is polled, the peer's PING ACK arrives (a transport
+    event: `Keep15`), it is polled again — GOAWAY(2^31-1) then GOAWAY(1) were sent, the connection is
+    `Closed` with NO_ERROR and the transport was shut down -/
+example : ∃ evs c, Hist15 demoServer evs c ∧ (sentG evs).map (·.lastStreamId) = [2147483647, 1] ∧
+    c.streams.recv.lastProcessedId = 1 ∧ c.state = .closed NO_ERROR .library ∧ c.codec.io.shutdownCalled = true := by
+  let c1 := (protoPollT 50 { demoServer.goAwayGracefully with cx := "c" }).1.1
+  let c2 : Conn := { c1 with codec := { c1.codec with io := { c1.codec.io with
+    rd := [0,0,8,6,1,0,0,0,0] ++ Generated.Consts.PING_SHUTDOWN_PAYLOAD } } }
+  have h1 : Hist15 demoServer _ c1 := Hist15.serverPoll "c" 50 (Hist15.graceful Hist15.init)
+  have h2 : Hist15 demoServer _ c2 := Hist15.call c2 h1 (Keep15.of_view rfl rfl)
+  exact ⟨_, _, Hist15.serverPoll "c" 50 h2, by decide, by decide, by decide, by decide⟩
+
+/-- **no new stream is started after a GOAWAY was received — ever**: once `conn_error` is set (by
+    `recv_go_away`, and likewise by any connection error, transport error or end of input) it stays
+    set over every history (polls, shutdown calls, all handle calls), so every later `send_request`
+    fails with a connection-level error and changes nothing.  (`Hist15` steps of kind `call` are
+    required not to clear `conn_error`; no function of the model does — `driver_calls_keep`.) -/
+theorem no_new_requests_ever_after_goaway {c0 c : Conn} {evs : List Ev} (h : Hist15 c0 evs c) (h0 : GoAwayInv c0)
+    (he : c0.streams.actions.connError.isSome = true) :
+    ∃ e, c.streams.actions.connError = some e ∧
+      ∀ isHead fields eos pending, c.streams.sendRequest isHead fields eos pending = (c.streams, .error (.proto e)) :=
+  hist15_connErr_persists h h0 he
+
+/-- **every user-side call of the driver is such a step**: the handle functions of `Streams`
+    (`send_request`, `poll_ready`, `send_data`, `send_trailers`, `send_reset`, `reserve_capacity`,
+    `poll_capacity`, `poll_reset`, `send_response`, `send_informational`, `push_request`,
+    `next_incoming`/`take_request`, `poll_response`, `poll_informational`, `poll_data`,
+    `poll_trailers`, `release_capacity`, `clear_recv_buffer`, clones and drops of handles,
+    `set_target_window_size`) write nothing of the view — in particular not `last_processed_id` /
+    `max_stream_id` / `conn_error`.  (The same for everything `Connection::poll` calls except
+    `recv_headers`, `recv_go_away`, `handle_error`, `recv_eof`, `apply_*_settings`: files
+    `ConnCtlPView*.lean`, ~250 frame lemmas.) -/
+theorem driver_calls_keep (s : Streams) :
+    (∀ a b c d, view (s.sendRequest a b c d).1 = view s) ∧ (∀ a b, view (s.pollPendingOpen a b).1 = view s) ∧
+    (∀ k n e, view (s.refSendData k n e).1 = view s) ∧ (∀ k f, view (s.refSendTrailers k f).1 = view s) ∧
+    (∀ k r, view (s.refSendReset k r) = view s) ∧ (∀ k n, view (s.refReserveCapacity k n) = view s) ∧
+    (∀ k t, view (s.pollCapacity k t).1 = view s) ∧ (∀ k m t, view (s.pollReset k m t).1 = view s) ∧
+    (∀ k f e, view (s.refSendResponse k f e).1 = view s) ∧ (∀ k f, view (s.refSendInformationalHeaders k f).1 = view s) ∧
+    (∀ k v f, view (s.refSendPushPromise k v f).1 = view s) ∧ view s.nextIncoming.1 = view s ∧
+    (∀ k, view (s.recvTakeRequest k).1 = view s) ∧ (∀ n k t, view (Streams.recvPollResponse n s k t).1 = view s) ∧
+    (∀ k t, view (s.recvPollInformational k t).1 = view s) ∧ (∀ k t, view (s.refPollData k t).1 = view s) ∧
+    (∀ k t, view (s.recvPollTrailers k t).1 = view s) ∧ (∀ k n, view (s.refReleaseCapacity k n).1 = view s) ∧
+    (∀ k, view (s.refClearRecvBuffer k) = view s) ∧ (∀ k, view (s.cloneStreamRef k) = view s) ∧
+    (∀ k, view (s.dropStreamRef k) = view s) ∧ view s.cloneHandle = view s ∧ view s.dropHandle = view s ∧
+    (∀ n, view (s.setTargetConnectionWindow n).1 = view s) ∧ (∀ t, view (s.wake t) = view s) :=
+  ⟨fun _ _ _ _ => view_sendRequest .., fun _ _ => view_pollPendingOpen .., fun _ _ _ => view_refSendData ..,
+   fun _ _ => view_refSendTrailers .., fun _ _ => view_refSendReset .., fun _ _ => view_refReserveCapacity ..,
+   fun _ _ => view_pollCapacity .., fun _ _ _ => view_pollReset .., fun _ _ _ => view_refSendResponse ..,
+   fun _ _ => view_refSendInformationalHeaders .., fun _ _ _ => view_refSendPushPromise .., view_nextIncoming ..,
+   fun _ => view_recvTakeRequest .., fun _ _ _ => view_recvPollResponse .., fun _ _ => view_recvPollInformational ..,
+   fun _ _ => view_refPollData .., fun _ _ => view_recvPollTrailers .., fun _ _ => view_refReleaseCapacity ..,
+   fun _ => view_refClearRecvBuffer .., fun _ => view_cloneStreamRef .., fun _ => view_dropStreamRef ..,
+   view_cloneHandle .., view_dropHandle .., fun _ => view_setTargetConnectionWindow .., fun _ => view_wake ..⟩
+
+/-- **a request is counted in `last_processed_id` before it is queued for the application**
+    (partial: stated for `Recv::recv_headers` on a fresh stream entry — state `Idle`, not counted,
+    which is what `Inner::recv_headers` creates for an unknown id; that every key in `pending_accept`
+    names such an entry needs per-key store invariants that are not proven): `recv_headers` writes
+    nothing of the view but `last_processed_id`, only upwards and only to the frame's stream id, and
+    unless it fails with a state/stream error the result is at or above that id — in particular
+    when the request is queued in `pending_accept` (`.ok`). -/
+theorem accepted_request_is_counted_partial (s : Streams) (k : Nat) (h : HeadersIn) :
+    ∃ l, view (s.recvRecvHeaders k h).1 = { view s with lpi := l } ∧
+      (l = (view s).lpi ∨ (l = h.sid ∧ (view s).lpi < h.sid)) ∧
+      ((s.stream k).state.inner = .idle → (s.stream k).isCounted = false →
+        (∀ e, (s.recvRecvHeaders k h).2 ≠ .state e) → h.sid ≤ l) :=
+  view_recvRecvHeaders s k h
+
 end H2V.Props.C15
 
+#print axioms H2V.Props.C15.goaway_invariant_in_every_reachable_state
+#print axioms H2V.Props.C15.goaway_last_stream_ids_never_increase
+#print axioms H2V.Props.C15.goaways_cover_processed_streams
+#print axioms H2V.Props.C15.no_new_requests_ever_after_goaway
+#print axioms H2V.Props.C15.driver_calls_keep
+#print axioms H2V.Props.C15.accepted_request_is_counted_partial
 #print axioms H2V.Props.C15.invariant_initially
 #print axioms H2V.Props.C15.go_away_assert_is_monotonicity
 #print axioms H2V.Props.C15.go_away_now_monotone
